@@ -857,7 +857,7 @@ Hypothesis best_in : forall ks k, best ks = Ok (Some k) -> In k ks.
 Lemma point_get_verdict tk s : sorted s ->
   point_get best cx tk s =
   match point_kv best cx tk s with
-  | Ok (Some (_, v)) => match v with [] => None | _ => Some v end
+  | Ok (Some (_, v)) => Some v
   | _ => None
   end.
 Proof.
@@ -869,7 +869,7 @@ Proof.
   rewrite (assoc_filter_sorted
              (fun k0 => prefixb (unversioned_prefix (cx_instance cx) tk) k0
                         && Nat.eqb (length k0) (length (unversioned_prefix (cx_instance cx) tk) + suffix_size)) k s Hs I).
-  destruct (kv_get k s) as [[|b v]|]; reflexivity.
+  destruct (kv_get k s); reflexivity.
 Qed.
 
 (* keys-only scans run the same resolver on the same keys *)
@@ -953,18 +953,6 @@ Proof.
   rewrite !lex_compare_cons. now apply term_compare.
 Qed.
 
-(* when no stored value is empty, "found nothing" and "found the empty value" cannot be confused *)
-Lemma point_get_nonempty best cx tk s :
-  (forall ks k, best ks = Ok (Some k) -> In k ks) ->
-  sorted s -> (forall e, In e s -> snd e <> []) ->
-  point_get best cx tk s = match point_kv best cx tk s with Ok (Some (_, v)) => Some v | _ => None end.
-Proof.
-  intros BI Hs NE. rewrite (point_get_verdict best cx BI tk s Hs).
-  destruct (point_kv best cx tk s) as [[[k v]|]| |] eqn:V; try reflexivity.
-  unfold point_kv in V. apply vkv_key_in in V. unfold entries_kv in V. apply filter_In in V as [V _].
-  specialize (NE _ V). cbn [snd] in NE. destruct v; [contradiction|reflexivity].
-Qed.
-
 (* witness for the empty-value finding: one entry whose value is empty, a resolver choosing it *)
 Definition wit_best (ks : list bytes) : res (option bytes) :=
   match ks with k :: _ => Ok (Some k) | [] => Ok None end.
@@ -973,5 +961,6 @@ Definition wit_empty_store : store := [(construct_data_key 1 1 0 (kv_tkey [101])
 Lemma empty_value_witness :
   keys_in_range wit_best wit_cx (min_tkey 177) (max_tkey 177) wit_empty_store = Ok [kv_tkey [101]] /\
   point_exists wit_best wit_cx (kv_tkey [101]) wit_empty_store = true /\
-  point_get wit_best wit_cx (kv_tkey [101]) wit_empty_store = None.
+  point_get_nil wit_best wit_cx (kv_tkey [101]) wit_empty_store = None /\
+  point_get wit_best wit_cx (kv_tkey [101]) wit_empty_store = Some [].
 Proof. vm_compute. repeat split. Qed.
